@@ -340,7 +340,7 @@ class Interp:
                         "In": lambda: a in b, "NotIn": lambda: a not in b}[op]()
             except Exception:
                 return ("cmp", op, a, b)
-        if op in ("Lt", "LtE", "Gt", "GtE", "Eq", "NotEq") and is_lin(a) and is_lin(b):
+        if op in ("Lt", "LtE", "Gt", "GtE", "Eq", "NotEq") and (is_lin(a) or intish(a)) and (is_lin(b) or intish(b)):
             d = add(a, b, -1)
             if is_int(d):
                 return {"Lt": d < 0, "LtE": d <= 0, "Gt": d > 0, "GtE": d >= 0, "Eq": d == 0, "NotEq": d != 0}[op]
